@@ -11,6 +11,13 @@ ALPHA = list("?*$:<>()[]{},-!/.ab") + ["é", "中", "\n", " ", "^", "|", "i", "(
 def strings(seed, n):
     r = random.Random(seed)
     out = ["", "a", "/", "a/b", "?*$:<>()[]{},", "-", "(?i)a", "[a]", "**", "a/**/b", "{a,b}", "<a:1,2>", "/a", "a/", "!", "[!a]", "中/é", "\n"]
+    # every printable ASCII character, alone and inside text (the parser and is_meta_character must agree on each)
+    for cp in range(0x20, 0x7f):
+        c = chr(cp)
+        if c == "\\":
+            continue
+        out += [c, "a" + c + "b", c + c + "x", "year" + c + "2024/m" + c + "05"]
+    out = [x for x in out if "//" not in x]
     # characters that are not meta-characters but share their low byte, or their low 16 bits, with one (a truncating
     # conversion would confuse them), and a spread of scalars from every plane
     for pch in "?*$:<>()[]{},-!/\\.^|~&#+":
